@@ -55,13 +55,14 @@ log "== seed $NAME: $(jq -r .summary "$SEED/meta.json" 2>/dev/null | cut -c1-300
 log "demo on clean worktree:   $(run_demo "$WT" clean)"
 if ! git -C "$WT" apply --check "$SEED/patch.diff" 2>>"$OUT"; then log "PATCH DOES NOT APPLY to current HEAD"; exit 3; fi
 git -C "$WT" apply "$SEED/patch.diff"
+rm -rf "$WT/seedwork"
 if (cd "$WT" && go build ./... && $T) >/tmp/seed-results/$NAME.baseline.log 2>&1; then log "baseline with the change: PASS"; else log "baseline with the change: FAIL (seed rejected)"; fi
 log "demo with the change:     $(run_demo "$WT" mutant)"
 # now the checks, against the scratch worktree carrying the change (VERIF_REPO), so that /repo
 # itself stays untouched and available (equivalent to git -C /repo apply; run; git checkout)
 rm -rf "$WT/seedwork"
 for id in "$@"; do
-  (cd /verif && VERIF_REPO="$WT" VERIF_EVIDENCE_DIR=/tmp/seed-results/evidence VERIF_REPLAY_DIR=/tmp/seed-results/replays timeout 3600 ./bin/verifctl check "$id" --tier quick) > "/tmp/seed-results/$NAME.$id.log" 2>&1
+  (cd /verif && VERIF_REPO="$WT" VERIF_EVIDENCE_DIR=/tmp/seed-results/evidence VERIF_REPLAY_DIR=/tmp/seed-results/replays timeout 3600 ./bin/verifctl check "$id" --tier ${VERIF_TRY_TIER:-quick}) > "/tmp/seed-results/$NAME.$id.log" 2>&1
   rc=$?
   nv=$(grep -c '^VIOLATION' "/tmp/seed-results/$NAME.$id.log")
   log "check $id: exit=$rc violations_printed=$nv $(grep '^RESULT' /tmp/seed-results/$NAME.$id.log | cut -c1-120)"
